@@ -1,5 +1,6 @@
 import Netconan.Proofs.IpInt
 import Netconan.Proofs.UndoLine
+import Netconan.Proofs.NetPins
 /-!
 # C02 – IP anonymization is exactly reversible with the same salt and options
 
@@ -85,5 +86,19 @@ open NoSurvival IpText in
 again, starts from the same addresses) -/
 theorem canonical_spelling_parses (n : Nat) (h : n < 2 ^ 32) : parseV4 (showV4 n) = .ok n := by
   rw [showV4_eq]; exact showQuad_parse n h
+
+open NoSurvival IpText in
+/-- …with the preserved networks registered as preserved prefixes (what `IpAnonymizer.__init__` does) the
+proviso is only the property's own: the image is not netmask-shaped. -/
+theorem undo_restores_token_pinned (c : IpCfg) (hf : c.fam6 = false) (hnp : NetsPinned c.nets c.pins)
+    (t : List Char) (ht : Lang core4 t) :
+    ∃ n, parseV4 t = .ok n ∧ n < 2 ^ 32 ∧
+      (Mask.shouldAnonymize c.nets n = true → Mask.isMask (FN c.h c.pins 32 c.B n) = false →
+        anonMatch c true (anonMatch c false t) = showV4 n) := by
+  obtain ⟨n, hp, hn, _, h2⟩ := undo_anon_token c hf showV4_eq t ht
+  refine ⟨n, hp, hn, ?_⟩
+  intro hs hm
+  apply h2 hs
+  rw [should_image c hnp n hn hs, hm]; rfl
 
 end Netconan.Props.C02
